@@ -18,9 +18,12 @@ import PtModel.Shape
 import PtModel.HandleKernel
 import PtModel.HandleRaise
 import PtModel.HandlePyGen
+import PtModel.HandleLoopyGen
 import PtModel.HandleDist
 import PtModel.HandleEq
 import PtModel.HandleMapper
+import PtModel.HandleSymShape
+import PtModel.HandleCalls
 namespace Pt
 
 def showVals (vs : List Val) : String := "(" ++ " ".intercalate (vs.map Val.toWire) ++ ")"
@@ -385,6 +388,10 @@ def handle (q : Sx) : String :=
     (match handleRaise args with
      | some r => "ok " ++ r
      | none => "err:parse")
+  | .list (.atom "loopygen" :: args) =>
+    (match handleLoopyGen args with
+     | some r => "ok " ++ r
+     | none => "err:parse")
   | .list (.atom "pygen" :: args) =>
     (match handlePyGen args with
      | some r => "ok " ++ r
@@ -403,6 +410,14 @@ def handle (q : Sx) : String :=
      | none => "err:parse")
   | .list (.atom "mapper" :: args) =>
     (match handleMapper args with
+     | some r => "ok " ++ r
+     | none => "err:parse")
+  | .list (.atom "symshape" :: args) =>
+    (match handleSymShape args with
+     | some r => "ok " ++ r
+     | none => "err:parse")
+  | .list (.atom "calls" :: args) =>
+    (match handleCalls args with
      | some r => "ok " ++ r
      | none => "err:parse")
   | .list [.atom "echo", x] => "ok " ++ x.toStr
